@@ -1,0 +1,14 @@
+//go:build verif
+// +build verif
+
+package ed25519
+
+// verifRoundTrip exists only under the `verif` build tag. It states, as code, the round trip
+// "derive a key, sign, verify" whose contract (the result is true) is the lemma behind
+// property C03. The verifier checks it against the contracts of NewKeyFromSeed, sign and
+// verify only, never against their bodies. It is not compiled into the library.
+func verifRoundTrip(seed, message []byte, f dom2Flag, c []byte, zip215 bool) bool {
+	priv := NewKeyFromSeed(seed)
+	sig := sign(priv, message, f, c)
+	return verify(PublicKey(priv[32:]), message, sig, f, c, zip215)
+}
